@@ -63,6 +63,8 @@ def run(ck: Checker, prog: Program, tier: str):
     from . import c10
     with ck.borrow(c10, "C17.R1+"):
         ck.guard(c10._filter_design, ck, prog)
+    with ck.borrow(c10, "C17.R4+"):
+        ck.guard(c10._detrend_unconditional, ck, prog)        # "with the mean removed": for every series, not only the ones that vary enough
     # the density accounts for the mean-square of the windows that were given: processing does not alter them first
     from . import c09
     with ck.borrow(c09, "C17.R1+"):
